@@ -173,8 +173,18 @@ type Evaluator struct {
 	// used by the kernel analyses); otherwise such accesses are weak reads /
 	// weak updates of all elements (sound for dependence questions).
 	symbolicElems bool
-	litCache      map[*ssa.Global]Val
-	backing       map[*ssa.Global]*Obj
+	// assume: comparison terms (by key) the evaluation takes as decided. A rule that examines a
+	// function case by case evaluates it once per case with the case's tests fixed: everything
+	// downstream (flags, table indices, loop bounds) then folds, whatever shape the code has.
+	// BranchConds collects the distinct comparisons the function computes.
+	assume map[string]bool
+	// assumeFn: like assume, for comparisons whose key the rule cannot spell in advance
+	assumeFn    func(cmp *Term) (value, decided bool)
+	BranchConds []*Term
+	branchSeen  map[string]bool
+	litCache    map[*ssa.Global]Val
+	backing     map[*ssa.Global]*Obj
+	backingAt   map[string]*Obj
 	// faithful: floating-point + - * / are kept as the binary operations the program performs
 	// (no re-association, no distribution), so that two values are the same term only if they are
 	// computed by the same sequence of roundings. Only rewrites that are exact in IEEE-754 are
@@ -659,6 +669,20 @@ func (f *frame) get(ev *Evaluator, v ssa.Value) Val {
 	return symVal("?"+v.Name(), v.Type())
 }
 
+// tableBackingAt: backing array of the slice stored at a path inside a table.
+func (ev *Evaluator) tableBackingAt(g *ssa.Global, path string) *Obj {
+	if ev.backingAt == nil {
+		ev.backingAt = map[string]*Obj{}
+	}
+	k := g.String() + path
+	if o, ok := ev.backingAt[k]; ok {
+		return o
+	}
+	o := ev.newObj("table:"+g.Name()+path, false)
+	ev.backingAt[k] = o
+	return o
+}
+
 // tableBacking is the abstract object standing for the backing array of a slice-typed table.
 func (ev *Evaluator) tableBacking(g *ssa.Global) *Obj {
 	if ev.backing == nil {
@@ -711,7 +735,18 @@ func (ev *Evaluator) load(st State, p Val, t types.Type) Val {
 						return &SliceV{Arr: bo, Lo: 0, Len: len(agg.Elems)}
 					}
 				} else {
-					return getPath(lv, x.Path)
+					got := getPath(lv, x.Path)
+					// a slice-typed element of a table ([4][]int{{0, 1}, {1}, ...}) is a slice over its own backing array
+					if agg, isAgg := got.(*Agg); isAgg && agg.T != nil {
+						if _, isSl := agg.T.Underlying().(*types.Slice); isSl {
+							bo := ev.tableBackingAt(x.Obj.global, fmt.Sprint(x.Path))
+							if _, have := st.mem[bo]; !have {
+								st.mem[bo] = agg
+							}
+							return &SliceV{Arr: bo, Lo: 0, Len: len(agg.Elems)}
+						}
+					}
+					return got
 				}
 			}
 		}
@@ -728,6 +763,15 @@ func (ev *Evaluator) load(st State, p Val, t types.Type) Val {
 		}
 		return getPath(root, x.Path)
 	case *Sym:
+		// *p for a symbolic pointer p: the object p points to, the same one p.f addresses
+		if x.T != nil {
+			if pt, ok := x.T.Underlying().(*types.Pointer); ok {
+				o := ev.symObj(&st, x.Path, pt.Elem())
+				if v, ok := st.mem[o]; ok {
+					return v
+				}
+			}
+		}
 		return symVal("*"+x.Path, t)
 	}
 	return symVal("?load", t)
@@ -853,7 +897,8 @@ func (ev *Evaluator) instr(fr *frame, ins ssa.Instruction, st *State) {
 			fr.env[x] = &Ptr{Obj: p.Obj, Path: append(append([]int{}, p.Path...), x.Field)}
 		case *Sym:
 			// pointer-typed symbolic value: one object per access path
-			o := ev.symObj(st, p.Path, p.T.Underlying().(*types.Pointer).Elem())
+			et := x.X.Type().Underlying().(*types.Pointer).Elem() // (the symbol's own type may be the pointee's)
+			o := ev.symObj(st, p.Path, et)
 			fr.env[x] = &Ptr{Obj: o, Path: []int{x.Field}}
 		default:
 			fr.env[x] = &Ptr{}
@@ -886,12 +931,22 @@ func (ev *Evaluator) instr(fr *frame, ins ssa.Instruction, st *State) {
 				}
 				fr.env[x] = &Ptr{Obj: ev.elemObj(st, nm, fr.get(ev, x.Index), et)}
 			} else {
-				fr.env[x] = &Ptr{Obj: ev.elemObj(st, p.Sym.Path, fr.get(ev, x.Index), et)}
+				iv := fr.get(ev, x.Index)
+				if it, ok := iv.(*Term); ok && p.Lo != 0 {
+					iv = Add(K(int64(p.Lo)), it)
+				}
+				fr.env[x] = &Ptr{Obj: ev.elemObj(st, p.Sym.Path, iv, et)}
 			}
 		case *Sym:
 			fr.env[x] = &Ptr{Obj: ev.elemObj(st, p.Path, fr.get(ev, x.Index), et)}
 		default:
-			fr.env[x] = &Ptr{}
+			if _, isSlice := x.X.Type().Underlying().(*types.Slice); isSlice && base != nil {
+				// a slice the evaluator has no model of (merged over branches, grown in a
+				// loop): its elements are atoms of that slice, not one shared unknown
+				fr.env[x] = &Ptr{Obj: ev.elemObj(st, "?"+x.X.Name(), fr.get(ev, x.Index), et)}
+			} else {
+				fr.env[x] = &Ptr{}
+			}
 		}
 	case *ssa.Field:
 		fr.env[x] = getPath(fr.get(ev, x.X), []int{x.Field})
@@ -991,7 +1046,7 @@ func (ev *Evaluator) instr(fr *frame, ins ssa.Instruction, st *State) {
 				fr.env[x] = Div(a, b)
 			}
 		case token.LSS, token.LEQ, token.GTR, token.GEQ, token.EQL, token.NEQ:
-			fr.env[x] = Cmp(x.Op.String(), a, b)
+			fr.env[x] = ev.decided(Cmp(x.Op.String(), a, b))
 		default:
 			if f, ok := foldIntOp(x.Op, a, b); ok {
 				fr.env[x] = f
@@ -1083,12 +1138,21 @@ func (ev *Evaluator) instr(fr *frame, ins ssa.Instruction, st *State) {
 			}
 			if p.Arr != nil && lo >= 0 && hi >= 0 {
 				fr.env[x] = &SliceV{Arr: p.Arr, Lo: p.Lo + lo, Len: hi - lo}
+			} else if p.Sym != nil && lo >= 0 && x.High == nil {
+				// xs[k:] of a symbolic slice: the same elements, shifted by k (xs[k:][i] is xs[k+i])
+				fr.env[x] = &SliceV{Len: -1, Sym: p.Sym, Lo: p.Lo + lo}
 			} else if p.Sym != nil {
 				fr.env[x] = &SliceV{Len: -1, Sym: &Sym{Path: p.Sym.Path + "[a:b]", T: x.Type()}}
 			} else {
 				fr.env[x] = &SliceV{Len: -1, Sym: &Sym{Path: valKey(p) + "[a:b]", T: x.Type()}}
 			}
 		case *Sym:
+			if x.High == nil && x.Low != nil {
+				if t, ok := fr.get(ev, x.Low).(*Term); ok && t.Op == "c" && t.C.IsInt() {
+					fr.env[x] = &SliceV{Len: -1, Sym: p, Lo: int(t.C.Num().Int64())}
+					break
+				}
+			}
 			fr.env[x] = &SliceV{Len: -1, Sym: &Sym{Path: p.Path + "[a:b]", T: x.Type()}}
 		default:
 			fr.env[x] = &SliceV{Len: -1, Sym: &Sym{Path: "?slice", T: x.Type()}}
@@ -1128,6 +1192,39 @@ func elemTypeIfPtr(t types.Type) types.Type {
 		return p.Elem()
 	}
 	return t
+}
+
+// decided applies the evaluation's assumptions to a comparison and records it.
+func (ev *Evaluator) decided(c *Term) *Term {
+	base, neg := c, false
+	if base.Op == "not" {
+		base, neg = base.Args[0], true
+	}
+	if base.Op != "cmp" {
+		return c
+	}
+	if ev.branchSeen == nil {
+		ev.branchSeen = map[string]bool{}
+	}
+	if !ev.branchSeen[base.Key()] {
+		ev.branchSeen[base.Key()] = true
+		ev.BranchConds = append(ev.BranchConds, base)
+	}
+	if v, ok := ev.assume[base.Key()]; ok {
+		if v != neg {
+			return K(1)
+		}
+		return K(0)
+	}
+	if ev.assumeFn != nil {
+		if v, ok := ev.assumeFn(base); ok {
+			if v != neg {
+				return K(1)
+			}
+			return K(0)
+		}
+	}
+	return c
 }
 
 func isFloatType(t types.Type) bool {
@@ -1357,6 +1454,9 @@ func (ev *Evaluator) builtin(name string, args []Val, c *ssa.CallCommon, st *Sta
 			if s.Len >= 0 {
 				return K(int64(s.Len))
 			}
+			if s.Lo != 0 {
+				return Add(A("len("+s.Sym.Path+")"), K(int64(-s.Lo)))
+			}
 			return A("len(" + s.Sym.Path + ")")
 		case *Sym:
 			return A("len(" + s.Path + ")")
@@ -1393,6 +1493,10 @@ func isNilVal(v Val) bool { _, ok := v.(Nil); return ok }
 type Rec struct{ Init, Step *Term }
 
 var recs = map[string]*Rec{}
+
+// recLoop: the loop (function#header block) a phi recurrence belongs to. Recurrences of one
+// loop advance in lockstep.
+var recLoop = map[string]string{}
 var recOrder []string
 
 // recsSince returns the recurrences recorded after mark (= len(recOrder) then).
@@ -1447,6 +1551,45 @@ func symLike(name string, like Val) Val {
 	return like
 }
 
+// symLikeDiff is symLike restricted to the leaves the loop body changes: a leaf of an
+// aggregate whose value after one iteration (back) is what it was before (pre) keeps its
+// current value (a struct whose X is set by the outer loop and whose Y by the inner one is
+// loop-carried in Y only).
+func symLikeDiff(name string, cur, pre, back Val) Val {
+	ca, ok1 := cur.(*Agg)
+	pa, ok2 := pre.(*Agg)
+	ba, ok3 := back.(*Agg)
+	if !ok1 || !ok2 || !ok3 || len(ca.Elems) != len(pa.Elems) || len(ca.Elems) != len(ba.Elems) {
+		return symLike(name, cur)
+	}
+	full, _ := symLike(name, cur).(*Agg)
+	if full == nil || len(full.Elems) != len(ca.Elems) {
+		return symLike(name, cur)
+	}
+	out := &Agg{T: ca.T}
+	for i := range ca.Elems {
+		if valKey(pa.Elems[i]) == valKey(ba.Elems[i]) {
+			out.Elems = append(out.Elems, ca.Elems[i])
+			continue
+		}
+		// recurse with the element's own name (taken from the fully symbolic version)
+		sub := full.Elems[i]
+		if _, isAgg := ca.Elems[i].(*Agg); isAgg {
+			nm := fmt.Sprintf("%s.%d", name, i)
+			if ca.T != nil {
+				if st, ok := ca.T.Underlying().(*types.Struct); ok && i < st.NumFields() {
+					nm = name + "." + st.Field(i).Name()
+				} else if _, isArr := ca.T.Underlying().(*types.Array); isArr {
+					nm = fmt.Sprintf("%s[%d]", name, i)
+				}
+			}
+			sub = symLikeDiff(nm, ca.Elems[i], pa.Elems[i], ba.Elems[i])
+		}
+		out.Elems = append(out.Elems, sub)
+	}
+	return out
+}
+
 func recordRec(name string, init, step Val) {
 	switch x := init.(type) {
 	case *Term:
@@ -1477,4 +1620,43 @@ func recordRec(name string, init, step Val) {
 			recordRec(name, m, step)
 		}
 	}
+}
+
+// solveGeometric rewrites, inside t, every loop-carried value that doubles per iteration
+// (init 1; step 2·μ, μ+μ or μ<<1) as 1 << j, where j is the counter of the same loop
+// (init 0, step +1): `for i, units := 0, 1; ...; i, units = i+1, units<<1` carries the same
+// information as `1 << i` computed afresh.
+func solveGeometric(t *Term) *Term {
+	counterOf := func(loop string) *Term {
+		for name, l := range recLoop {
+			if l != loop {
+				continue
+			}
+			if rc, ok := recs[name]; ok && rc.Init.IsZero() && rc.Step.Key() == Add(K(1), A(name)).Key() {
+				return A(name)
+			}
+		}
+		return nil
+	}
+	return rebuild(t, func(x *Term) *Term {
+		if x.Op != "a" {
+			return nil
+		}
+		rc, ok := recs[x.S]
+		if !ok || !rc.Init.IsOne() {
+			return nil
+		}
+		dbl := rc.Step.Key() == Mul(K(2), x).Key() || rc.Step.Key() == Call("op<<", x, K(1)).Key()
+		if !dbl {
+			return nil
+		}
+		loop, ok := recLoop[x.S]
+		if !ok {
+			return nil
+		}
+		if j := counterOf(loop); j != nil {
+			return Call("op<<", K(1), j)
+		}
+		return nil
+	})
 }
